@@ -596,8 +596,8 @@ impl<'a> MslV<'a> {
             None => {
                 let it = match items.get(*pos) {
                     Some(it) => it,
-                    // fewer clauses than elements: the rest is value-initialised in C++ — never what a cast of a value means
-                    None => return other(format!("aggregate with fewer initialisers than elements ({} left without one)", t.show())),
+                    // fewer clauses than elements: the rest is value-initialised (zero)
+                    None => return self.zero(t),
                 };
                 *pos += 1;
                 if it.head() == "agg" {
